@@ -31,7 +31,8 @@ NONE = M.NONE
 
 # values the value-agnostic operators must treat as opaque items: falsy ones in particular
 # (0, '', False, None, empty list / tuple), strings, a non-integral number
-OPAQUE = [I(0), I(1), NONE, ['s', ''], ['s', 'a'], ['b', False], ['l', []], ['t', []], ['q', 1, 2]]
+OPAQUE = [I(0), I(1), NONE, ['s', ''], ['s', 'a'], ['b', False], ['l', []], ['t', []], ['q', 1, 2],
+          ['o', 1], ['o', 2]]       # 'o': items whose == / != has no truth value (array-like)
 # values with pairwise different python equality (no bool next to 0/1): usable as keys
 KEYLIKE = [I(0), I(1), I(-1), I(-2), NONE, ['s', ''], ['s', 'a'], ['t', []], ['t', [I(0)]],
            ['t', [I(-1)]], ['t', [I(-2)]]]     # hash(-1) == hash(-2) in CPython
@@ -63,6 +64,18 @@ def feedback_cases(rng, pipes, n, items=None):
             else:
                 lts = [(idx, items(rng)) for idx in rng.sample([0, 1, 4], rng.choice([1, 2]))]
             cases.append(mux_case(pipe, G.schedule(rng, lts), feedback='end'))
+    return cases
+
+
+def sparse_cases(rng, pipes, n):
+    """key indices far apart and far beyond anything allocated so far (the store tables and the
+    join slots grow to the index they are asked for, in any order)"""
+    cases = []
+    for pipe in pipes:
+        for _ in range(n):
+            idxs = rng.sample([0, 3, 300, 1100, 2600, 5000], rng.choice([2, 3]))
+            lts = [(idx, G.ints([rng.randint(0, 4) for _ in range(rng.randint(1, 5))])) for idx in idxs]
+            cases.append(mux_case(pipe, G.schedule(rng, lts)))
     return cases
 
 
@@ -181,6 +194,8 @@ def cases_c05(rng, thorough):
                                 lambda r, inn: G.op_roll(r.randint(1, 3), r.randint(1, 3), inn))
     cases += multi_source_cases(rng, 12 if thorough else 4, mk_pipe=lambda r: [G.op_roll(
         r.randint(1, 3), r.randint(1, 3), r.choice([[], [G.op_agg('sum', True)]]))])
+    cases += sparse_cases(rng, [[G.op_roll(3, 1, [])], [G.op_roll(2, 2, [G.op_agg('sum', True)])],
+                                [G.op_roll(40, 2, [G.op_simple('last')])]], 3 if thorough else 1)
     # a feedback loop that pushes the next item when a (tumbling) window completes
     for w in (1, 2, 3):
         for inn in ([FB_DONE], [FB_DONE, G.op_simple('to_list')]):
@@ -205,7 +220,7 @@ def nontrivial_c05(t):
 
 def cases_c04(rng, thorough):
     cases = []
-    variants = [None, 'bigint', 'tuple', 'str', 'float', 'altfloat']
+    variants = [None, 'bigint', 'tuple', 'str', 'float', 'altfloat', 'strenum', 'sentinel']
     kfs = [('modc', 2), ('modc', 3), ('id', 0), ('addc', -3)]     # addc -3: negative keys (-1, -2 collide as hashes)
     maxlen = 5 if thorough else 4
     for (f, c) in kfs:
@@ -239,6 +254,8 @@ def cases_c04(rng, thorough):
                                              rng.choice(variants))], G.ints(xs)))
     cases += shared_inner_cases(rng, 24 if thorough else 8,
                                 lambda r, inn: G.op_group_by('modc', r.choice([2, 3]), inn))
+    cases += sparse_cases(rng, [[G.op_group_by('modc', 3, [])], [G.op_group_by('id', 0, [G.op_simple('to_list')])]],
+                          3 if thorough else 1)
     cases += multi_source_cases(rng, 12 if thorough else 4, mk_pipe=lambda r: [G.op_group_by(
         'modc', r.choice([2, 3]), r.choice([[], [G.op_simple('to_list')], [_scan_add()]]))])
     cases += feedback_cases(rng, [[G.op_group_by('modc', 2, [])], [G.op_group_by('id', 0, [_scan_add()])],
@@ -265,7 +282,7 @@ def nontrivial_c04(t):
 def cases_c06(rng, thorough):
     cases = []
     preds = [('divc', 2), ('modc', 2), ('modc', 3), ('noneIf', 1), ('addc', -3)]   # noneIf: None as a predicate value
-    variants = [None, 'bigint', 'tuple', 'str', 'altfloat']
+    variants = [None, 'bigint', 'tuple', 'str', 'altfloat', 'strenum', 'sentinel']
     maxlen = 6 if thorough else 5
     for (f, c) in preds:
         for xs in seqs(range(4), maxlen):
@@ -298,6 +315,14 @@ def cases_c06(rng, thorough):
         cases.append(src_case([G.op_split('divc', 2, [G.op_simple('to_list')], 'str')], G.ints(xs)))
     cases += shared_inner_cases(rng, 24 if thorough else 8,
                                 lambda r, inn: G.op_split('divc', r.choice([2, 3]), inn))
+    # a criterion that is unequal to itself (NaN, every time the same object): every such item
+    # starts a run of its own
+    for _ in range(40 if thorough else 12):
+        inner = rng.choice([[], [G.op_simple('to_list')], [{'op': 'count', 'reduce': True}]])
+        sp = G.op_split('nanIf', rng.choice([0, 1]), inner)
+        pipe = [sp] if rng.random() < 0.6 else [G.op_group_by('modc', 2, [sp])]
+        lts = [(idx, G.ints([rng.choice([0, 0, 1, 1, 2]) for _ in range(rng.randint(0, 7))])) for idx in rng.sample([0, 2, 5], 2)]
+        cases.append(mux_case(pipe, G.schedule(rng, lts)))
     # an item that fails upstream: its error event passes through split (and round its inner
     # pipeline); the runs are those of the sequence without that item
     for _ in range(40 if thorough else 12):
@@ -451,6 +476,15 @@ def cases_c08(rng, thorough):
         t = G.op_tee(rng.choice(joins), [pre[b] + shared for b in range(nb)])
         lts = rand_lifetimes(rng, rng.choice([1, 2]), 6, vals=range(-1, 4), reuse=0.4)
         cases.append(mux_case([t], G.schedule(rng, lts), share_ops=True))
+    cases += sparse_cases(rng, [[G.op_tee(j, [[G.op_filter('even')], [_scan_add()]])] for j in ('zip', 'combine_latest')]
+                          + [[G.op_roll(30, 1, [G.op_tee('zip', [[], [{'op': 'count', 'reduce': False}]])])]],
+                          3 if thorough else 1)
+    for _ in range(60 if thorough else 16):      # items the joins must not look at
+        agn = [[], [G.op_simple('last')], [G.op_simple('take', n=2)], [{'op': 'count', 'reduce': False}],
+               [G.op_simple('to_list')], [G.op_simple('lag', n=1)]]
+        t = G.op_tee(rng.choice(joins), [rng.choice(agn) for _ in range(rng.choice([2, 3]))])
+        lts = [(idx, [rng.choice(OPAQUE) for _ in range(rng.randint(0, 6))]) for idx in rng.sample([0, 2, 5], 2)]
+        cases.append(mux_case([t], G.schedule(rng, lts)))
     # re-entrant delivery: zip of branches that give one output per item (the tuple is the
     # last thing the tee_map does for an item)
     cases += feedback_cases(rng, [
@@ -526,7 +560,8 @@ def cases_c09(rng, thorough):
         for src in G.all_interleavings(streams, cap=None if thorough else 12, rng=rng):
             cases.append(mux_case([op], src))
         if op['op'] == 'duc' and op['f']['n'] == 'id':
-            for xs in ([NONE], [NONE, I(1)], [NONE, NONE, I(0)], [I(0), NONE, NONE], [['s', ''], NONE]):
+            for xs in ([NONE], [NONE, I(1)], [NONE, NONE, I(0)], [I(0), NONE, NONE], [['s', ''], NONE],
+                       [['nan'], ['nan']], [I(1), ['nan'], ['nan'], I(1), I(1)], [['nan'], I(0), ['nan']]):
                 cases.append(mux_case([op], G.key_stream(rng.choice([0, 2]), xs)))     # a leading None / falsy key
             for _ in range(12 if thorough else 4):     # None / falsy / colliding-hash keys first
                 lts = [(idx, [rng.choice(KEYLIKE) for _ in range(rng.randint(0, 5))]) for idx in (0, 2)]
@@ -555,6 +590,8 @@ def cases_c09(rng, thorough):
         # re-entrant delivery (the state is written before the running value is emitted)
         if op['op'] != 'dist' and not (op['op'] == 'mean' and op['reduce']):
             cases += feedback_cases(rng, [[op]], 4 if thorough else 1)
+    cases += sparse_cases(rng, [[_scan_add()], [{'op': 'count', 'reduce': True}], [G.op_simple('to_list')],
+                                [G.op_simple('duc', f=fn('id'))]], 3 if thorough else 1)
     cases += multi_source_cases(rng, 16 if thorough else 5, mk_pipe=lambda r: [r.choice(
         [o for o in scan_ops() if o['op'] not in ('dist', 'mean', 'to_array') and not (o['op'] == 'scan' and o['f']['n'] == 'failAdd')])])
     cases += feedback_cases(rng, [[_scan_add(), G.op_simple('lag', n=1)],
@@ -589,7 +626,8 @@ def seq_ops():
     ops += [G.op_simple('distinct', f=fn('id')), G.op_simple('duc', f=fn('id')),
             G.op_simple('distinct', f=fn('addc', -3)), G.op_simple('duc', f=fn('addc', -3)),
             G.op_simple('distinct', f=fn('modc', 2), variant='altfloat'),
-            G.op_simple('duc', f=fn('modc', 2), variant='altfloat')]
+            G.op_simple('duc', f=fn('modc', 2), variant='altfloat'),
+            G.op_simple('duc', f=fn('nanIf', 1))]          # NaN keys: never equal, not even the same object
     ops += [G.op_simple('lag', n=n) for n in (0, 1, 2, 4)]
     for n in (0, 1, 3):
         for v in (NONE, I(9)):
@@ -965,6 +1003,9 @@ def cases_c02(rng, thorough):
             lts = [(idx, ts_items([(rng.choice([0, 1, 1, 2]), rng.random() < 0.25)
                                    for _ in range(rng.randint(0, 9))])) for idx in (0, 3)]
             cases.append(mux_case([op], G.schedule(rng, lts)))
+    cases += sparse_cases(rng, [[G.op_simple('lag', n=2)], [G.op_simple('take', n=2)], [G.op_simple('last')],
+                                [G.op_split('divc', 2, [_scan_add()])], [G.op_simple('distinct', f=fn('id'))]],
+                          3 if thorough else 1)
     cases += multi_source_cases(rng, 60 if thorough else 15)
     return cases
 
@@ -1137,6 +1178,12 @@ def extra_c08(V, rng, thorough, stats):
                                                [BRANCHES[rng.choice(names)](), BRANCHES[rng.choice(names)]()])]
         t = G.op_tee(rng.choice(['merge', 'zip', 'combine_latest']), brs)
         cases.append(([t], G.ints([rng.randint(-1, 4) for _ in range(rng.randint(0, 8))])))
+    # the joins do not look at the items: falsy, None and array-like items (no truth value for ==)
+    agnostic = [[], [G.op_simple('last')], [G.op_simple('take', n=2)], [{'op': 'count', 'reduce': False}],
+                [G.op_simple('to_list')], [G.op_simple('first')]]
+    for _ in range(120 if thorough else 30):
+        t = G.op_tee(rng.choice(['merge', 'zip', 'combine_latest']), [rng.choice(agnostic) for _ in range(rng.choice([2, 3]))])
+        cases.append(([t], [rng.choice(OPAQUE) for _ in range(rng.randint(1, 6))]))
     judge_plain(V, 'C08', plain_sem_traces(cases), stats)
 
 
